@@ -41,6 +41,22 @@ structure Space where
   cap : Cid → Option Nat
   isGrid : Bool
 
+/-- cells `[0] … [n-1]` of a `Network` on nodes 0..n-1 / a `VoronoiGrid` on n centroids -/
+def rangeCoords (n : Nat) : List Cid := (List.range n).map fun (i : Nat) => [(i : Int)]
+
+/-- an `OrthogonalMooreGrid` / `OrthogonalVonNeumannGrid` / `HexGrid` (`dimensions`, `torus`, `capacity`) -/
+def gridSpace (k : GridKind) (dims : List Nat) (torus : Bool) (cap : Option Nat) : Space :=
+  { cells := allCoords dims, conn := gridConn k dims torus, cap := fun _ => cap, isGrid := true }
+
+/-- a `Network` on the graph with nodes 0..n-1 and the given edge list -/
+def netSpace (directed : Bool) (n : Nat) (edges : List (Nat × Nat)) (cap : Option Nat) : Space :=
+  { cells := rangeCoords n, conn := netConn directed edges, cap := fun _ => cap, isGrid := false }
+
+/-- a `VoronoiGrid` on n centroids whose triangulation exported the given triangles
+    (`capacity_function` constant `cap`) -/
+def vorSpace (n : Nat) (tris : List (Nat × Nat × Nat)) (cap : Option Nat) : Space :=
+  { cells := rangeCoords n, conn := vorConn tris, cap := fun _ => cap, isGrid := false }
+
 structure State where
   occ : Cid → List Aid
   flag : Cid → Option Bool
@@ -175,7 +191,7 @@ def walk (sp : Space) (d : Key) : Nat → Cid → Option Cid
     | some c' => walk sp d k c'
 
 /-- `str.lower()` restricted to ASCII (the harness only sends ASCII names) -/
-def lower (s : String) : String := s.map Char.toLower
+def lower (s : String) : String := String.ofList (s.toList.map Char.toLower)
 
 /-- lookup in `Grid2DMovingAgent.DIRECTION_MAP` (generated constant) -/
 def dirVec (name : String) : Option Key :=
